@@ -6,6 +6,7 @@
  *   KSHIM_LOG=<file>          append one line per tracked call (O_APPEND, one write each)
  *   KSHIM_FAULT=<n>:<errno>   fail the n-th tracked call (1-based) with errno, once
  *   KSHIM_FAULT=<name>:<errno>:p   fail EVERY tracked call of that name (persistent)
+ *   KSHIM_PID=<n>                  getpid() answers n (processes of different PID namespaces sharing a cache)
  *   KSHIM_CRASH_AT=<n>        _exit(77) just before the n-th tracked call
  *   KSHIM_CLOCK=<base_ns>:<tick_ns>  CLOCK_REALTIME returns base + k*tick on its k-th read
  *   KSHIM_NOATIME=1           add O_NOATIME to tracked opens (emulates "no automatic atime")
@@ -75,6 +76,16 @@ static int eval(const char *s) {
     if (!strcmp(s, "EPERM")) return EPERM; if (!strcmp(s, "EXDEV")) return EXDEV;
     if (!strcmp(s, "EROFS")) return EROFS;
     return atoi(s);
+}
+
+/* KSHIM_PID=<n>: getpid() answers n.  Processes in different PID namespaces that share a
+   cache volume (containers: everybody is pid 1) are a legitimate environment; anything the
+   library derives from its pid must not make such processes collide. */
+static pid_t fake_pid = -1;
+pid_t getpid(void) {
+    if (fake_pid == -1) { const char *e = getenv("KSHIM_PID"); fake_pid = e ? (pid_t)atoi(e) : 0; }
+    if (fake_pid > 0) return fake_pid;
+    return (pid_t)syscall(SYS_getpid);
 }
 
 static void init(void) {
